@@ -233,6 +233,50 @@ fn generate(tier: &str, seed: u64, emit: &mut dyn FnMut(Case)) {
             }
         }
     }
+    // wider non-hex alphabet: every body over {0, a, F, g, +, -, ' ', x} of length <= 4 (5 thorough) after "d2:"
+    let alpha8 = [b'0', b'a', b'F', b'g', b'+', b'-', b' ', b'x'];
+    let maxw = if thorough { 5 } else { 4 };
+    for n in 0..=maxw {
+        for code in 0..(8usize.pow(n as u32)) {
+            let mut s = b"d2:".to_vec();
+            let mut c = code;
+            for _ in 0..n { s.push(alpha8[c % 8]); c /= 8; }
+            emit(k_case("d2", &s, "K-exh-wide"));
+        }
+    }
+    // special characters (sign, blank, tab, underscore, x/X as in "0x", non-hex letters, NUL, 2- and 3-byte characters) at every
+    // position - even and odd offsets - of bodies of 1..=5 slots, one or two specials per body, the other slots hex digits
+    let specials: [&str; 15] = ["+", "-", " ", "\t", "_", "x", "X", "g", "G", "\0", "é", "✓", "０", ":", "."];
+    let fill = ["0", "a", "F", "f", "1"];
+    for n in 1..=5usize {
+        for p1 in 0..n { for p2 in p1..n { for s1 in specials { for s2 in specials {
+            if p1 == p2 && s1 != s2 { continue; }
+            let body: String = (0..n).map(|i| if i == p1 { s1 } else if i == p2 { s2 } else { fill[i] }).collect();
+            for dg in ["d2", "any"] {
+                let name = if dg == "d2" { "d2" } else { "sha256" };
+                emit(k_case(dg, format!("{name}:{body}").as_bytes(), "K-special-body"));
+            }
+        } } } }
+    }
+    // the same in the algorithm-name part (inserted at / replacing every position of the name), valid digest
+    for s1 in specials {
+        for pos in 0..=2usize {
+            let ins: String = format!("{}{}{}", &"d2"[..pos], s1, &"d2"[pos..]);
+            let rep: String = if pos < 2 { format!("{}{}{}", &"d2"[..pos], s1, &"d2"[pos + 1..]) } else { s1.to_string() };
+            for name in [ins, rep] { for dg in ["d2", "any"] { emit(k_case(dg, format!("{name}:0aFf").as_bytes(), "K-special-name")); } }
+        }
+    }
+    // 32-byte digest: a valid 64-digit string with one special at every offset (multi-byte ones replace as many digits as they
+    // have bytes, so the byte length stays 64), and a sign in front of every pair
+    let valid64: String = (0..64).map(|i| char::from(b"0123456789abcdefABCDEF"[(i * 7) % 22])).collect();
+    for sp in specials {
+        for p in 0..64usize {
+            if p + sp.len() > 64 { continue; }
+            let body = format!("{}{}{}", &valid64[..p], sp, &valid64[p + sp.len()..]);
+            emit(k_case("s32", format!("sha256:{body}").as_bytes(), "K-special-s32"));
+        }
+    }
+    for sign in ["+", "-"] { emit(k_case("s32", format!("sha256:{}", format!("{sign}a").repeat(32)).as_bytes(), "K-special-s32")); }
     // sampled: the 32-byte digest and the unconstrained digest, lengths around 64 digits
     let nk = if thorough { 60_000 } else { 6_000 };
     for idx in 0..nk {
@@ -245,7 +289,9 @@ fn generate(tier: &str, seed: u64, emit: &mut dyn FnMut(Case)) {
         let mut s = name.as_bytes().to_vec();
         if !r.chance(1, 12) { s.push(b':'); }
         let pos_bad = r.below(len.max(1) as u64) as usize;
-        for i in 0..len { s.push(if bad && i == pos_bad { *r.pick(&[b'g', b' ', b':', b'x', b'-']) } else { *r.pick(b"0123456789abcdefABCDEF") }); }
+        let pos_bad2 = r.below(len.max(1) as u64) as usize;
+        let two = r.chance(1, 3);
+        for i in 0..len { s.push(if bad && (i == pos_bad || (two && i == pos_bad2)) { *r.pick(&[b'g', b' ', b':', b'x', b'-', b'+', b'\t', b'_', b'X', 0u8, b'.']) } else { *r.pick(b"0123456789abcdefABCDEF") }); }
         emit(k_case(dg, &s, "K-rnd"));
     }
 }
